@@ -52,7 +52,7 @@ fn strategy() -> BoxedStrategy<Case> {
     ];
     // either mixed schedules, or "lively" ones that keep talking for a long time
     let mixed = vec((dt, kind.clone()), 0..30);
-    let lively = vec((prop::sample::select(vec![300u32, 600, 900, 1100, 1190, 1195]), prop_oneof![Just(Kind::Have), Just(Kind::Interested), Just(Kind::Choke), Just(Kind::Cancel), Just(Kind::Request), Just(Kind::KeepAlive)]), 4..30);
+    let lively = vec((prop::sample::select(vec![300u32, 600, 900, 1100, 1170, 1180]), prop_oneof![Just(Kind::Have), Just(Kind::Interested), Just(Kind::Choke), Just(Kind::Cancel), Just(Kind::Request), Just(Kind::NotInterested)]), 6..30);
     (prop_oneof![3 => mixed, 2 => lively], any::<bool>(), any::<bool>(), any::<u64>())
         .prop_map(|(arrivals, outgoing, assign_first, seed)| Case { arrivals, outgoing, assign_first, seed })
         .boxed()
